@@ -10,6 +10,8 @@ import OV.Drivers.Loop
 * `C14 builder <fixed 0|1> <g> <b> [<events>]`                      → `global=<g> seen=<csv> raised=<0|1>`
 * `C14 intern <cls/dom/ver;…|-> <cls/dom/ver>`                      → `<dom> <ver>`
 * `C14 fold <prevModified 0|1> <nodes f<id>:<v>,k<id>,u<k>|->`      → `modified=<0|1> nconst=<n>`
+* `C14 kw <aliasing 0|1> <fn refs csv> <bases r:k=v;k=v|…|-> <calls fi:k=v;…/…|-> <target fi:k=v;…> <keys csv>`
+                                                                     → `eff=<v|none,…> plain=<…> dicts=<r:k=v;…|…>`
 * `C14 castable <fn1 consts csv|-> <fn2 consts csv|-> <arg>`        → `castlike=<0|1> resets=<0|1>`
 -/
 namespace OV.Drivers.C14
@@ -112,6 +114,21 @@ def parseFoldNodes (s : String) : List FoldNode :=
     else if t.startsWith "u" then (t.drop 1).toString.toNat?.map .useSym
     else none)
 
+def showKW (kw : KW) : String :=
+  if kw.isEmpty then "-" else ";".intercalate (kw.map (fun p => s!"{p.1}={p.2}"))
+
+/-- keep the first binding of every key (a dict has one entry per key), sorted by key for printing -/
+def canonKW (kw : KW) : KW :=
+  let ks := (kw.map Prod.fst).eraseDups.mergeSort (fun a b => decide (a ≤ b))
+  ks.filterMap (fun k => (kw.lookup k).map (fun v => (k, v)))
+
+/-- `fi:k=v;k=v` -/
+def parseCall (s : String) : Option (Nat × KW) :=
+  match s.splitOn ":" with
+  | [i, kv] => i.toNat?.map (fun n => (n, parseGlobals kv))
+  | [i] => i.toNat?.map (fun n => (n, []))
+  | _ => none
+
 def b01 (b : Bool) : String := if b then "1" else "0"
 
 def handle (args : List String) : String :=
@@ -151,6 +168,23 @@ def handle (args : List String) : String :=
     let r := foldCall st (parseFoldNodes nodes)
     let nconst := (r.2.replaced.filter Option.isSome).length
     s!"modified={b01 r.2.modified} nconst={nconst}"
+  | ["kw", al, refs, bases, calls, target, keys] =>
+    let aliasing := al == "1"
+    let refL := (csv refs).filterMap (fun t => t.toNat?)
+    let fn := fun (i : Nat) => (⟨.x, refL.getD i 0⟩ : PFn)
+    let baseL := (if bases == "-" then [] else bases.splitOn "|").filterMap parseCall
+    let h0 : KWHeap := fun r => (baseL.lookup r).getD []
+    let callL := (if calls == "-" then [] else calls.splitOn "/").filterMap parseCall
+    match parseCall target with
+    | some (ti, over) =>
+      let h1 := runCalls aliasing h0 (callL.map (fun c => (fn c.1, c.2)))
+      let r := callProto aliasing h1 (fn ti) over
+      let r2 := callProto aliasing r.1 (fn ti) []
+      let ks := csv keys
+      let sh := fun (l : List (Option Int)) => ",".intercalate (l.map showOpt)
+      let dicts := "|".intercalate (refL.eraseDups.map (fun rr => s!"{rr}:{showKW (canonKW (r2.1 rr))}"))
+      s!"eff={sh (effective r.2.2 ks)} plain={sh (effective r2.2.2 ks)} dicts={dicts}"
+    | none => "ERR:parse"
   | ["castable", c1, c2, arg] =>
     let resets := OV.Gen.C14Stash.converterFacts.resetFields.contains "_castable"
     s!"castlike={b01 (insertsCastLike (castableAfter resets (csv c1) (csv c2)) arg)} resets={b01 resets}"
